@@ -136,14 +136,23 @@ def run(ctx):
     fb = H.FastBuilder()
     bangles = [2e-4, -1e-20, 0.3, 1.0002e-4, math.pi / 4 + 1.0003e-4, -math.pi / 2 + 1.0002e-4,
                5 * math.pi + 1.0003e-4]                                     # corpus (incl. seeded-change witnesses)
+    # angles within tolerance of 0 modulo 2 pi (empty step list), to be combined with explicit (n, d) below
+    zeroish = [0.0, -0.0, 2 * math.pi, -2 * math.pi, 4 * math.pi, 5e-5, -5e-5, 9.9e-5, 2 * math.pi - 3e-5,
+               2 * math.pi + 7e-5, 1e-20, -1e-20, 6 * math.pi + 1e-5, 1e-300]
+    bangles += zeroish * 3
     bangles += H.near_tol_angles(tol0) + structured
     bangles += [a for a, _ in cases[len(cases) - n_random:][: (20000 if ctx.thorough else 3000)]]
     for _ in range(20000 if ctx.thorough else 3000):
         bangles.append(H.random_near_tol(rng, tol0))
-    emitted, breqs, bacc = [], [], []
+    emitted, breqs, bacc, bnds = [], [], [], []
+    ND = [(1, 1), (1, 0), (3, 2), (255, 0), (7, 4), (128, 7), (0, 5), (2, 1)]
     for i, a in enumerate(bangles):
         axis = H.AXES[i % 3]
-        kind, cmds = fb.emit(axis, a)
+        # every second call passes explicit (n, d) TOGETHER with the angle: "If `angle` is specified, `n` and `d`
+        # are ignored" — the model's emitSpec depends on the angle only
+        nd = ND[(i // 2) % len(ND)] if i % 2 == 1 else None
+        bnds.append(nd)
+        kind, cmds = fb.emit(axis, a, nd)
         emitted.append((axis, kind, cmds))
         e, r, t = H.exact_inputs(a, tol0)
         breqs.append({"op": "angle.emit", "E": e, "r": r, "t": t, "axis": i % 3, "vq": fb.vq})
@@ -152,9 +161,12 @@ def run(ctx):
         bacc.append({"op": "angle.accepts", "E": e, "r": r, "t": t, "l": rots if okshape else [[0, 0]]})
     bmodel = ctx.driver.batch(breqs)
     baccepted = ctx.driver.batch(bacc)
-    for a, (axis, kind, cmds), m, acc in zip(bangles, emitted, bmodel, baccepted):
+    for a, nd, (axis, kind, cmds), m, acc in zip(bangles, bnds, emitted, bmodel, baccepted):
         res.evaluations += 1
-        inp = {"call": "q.rot_%s(angle=a)" % axis, "angle": a, "angle_hex": _hex(a), "tol": tol0}
+        call = "q.rot_%s(angle=a)" % axis if nd is None else "q.rot_%s(n=%d, d=%d, angle=a)" % (axis, nd[0], nd[1])
+        inp = {"call": call, "angle": a, "angle_hex": _hex(a), "tol": tol0}
+        if nd is not None:
+            res.count("builder-explicit-n-d-with-angle")
         if kind == "raise":
             res.count("builder-raises:" + cmds)
             res.failures.append({"what": "q.rot_%s(angle=...) raises %s" % (axis, cmds), "kf": None, "input": inp})
